@@ -101,12 +101,13 @@ def _prog(ctx, cfg):
                    'kind matches (a view never frees its parent).'),
       not_decided='absence of out-of-bounds word accesses in general, signed overflow')
 def c11(ctx):
-    from . import resources as R, align as AL
+    from . import resources as R, align as AL, contracts as CT
     out = []
     for cfg in _configs(ctx):
         prog = _prog(ctx, cfg)
         lab = _label(cfg)
         out.append((lab, R.rule_E1(ctx, prog, lab)))
+        out.append((lab, CT.rule_F1(ctx, prog, lab)))
         out.append((lab, AL.rule_D0(ctx, prog, lab)))
         out.append((lab, AL.rule_D1(ctx, prog, lab)))
         out.append((lab, AL.rule_D2(ctx, prog, lab)))
@@ -143,6 +144,7 @@ def c09(ctx):
         out.append((lab, M.rule_C1(ctx, prog, lab)))
         out.append((lab, M.rule_C2_callers(ctx, prog, lab)))
         out.append((lab, M.rule_C3(ctx, prog, lab)))
+        out.append((lab, M.rule_C4(ctx, prog, lab)))
         out.append((lab, CR.rule_A1(ctx, prog, lab)))
         out.append((lab, CR.rule_A2(ctx, prog, lab)))
         out.append((lab, AL.rule_D0(ctx, prog, lab)))
@@ -187,11 +189,36 @@ def c13(ctx):
                    'routes of _mzd_add, combine_even): every store is masked or interior for its destination. A1: sources unchanged.'),
       not_decided='that any transpose kernel transposes; bit positions in general (value level)')
 def c08(ctx):
-    from . import masks as M, const_rules as CR
+    from . import masks as M, const_rules as CR, contracts as CT
     out = []
     for cfg in _configs(ctx, extra=[dict(frontend.host_config(), sse2=0)]):
         prog = _prog(ctx, cfg)
         lab = _label(cfg)
         out.append((lab, M.rule_C1(ctx, prog, lab, only=MOVERS, rule='C1-movers')))
+        out.append((lab, M.rule_C4(ctx, prog, lab)))
+        out.append((lab, CT.rule_F2(ctx, prog, lab)))
         out.append((lab, CR.rule_A1(ctx, prog, lab)))
+    return out
+
+
+@prop('C10', level='other',
+      explanation=('C5: mzd_init takes its words only from m4ri_mmc_calloc, whose zeroing memset post-dominates the (possibly recycled) '
+                   'allocation with the same length, m4ri_mmc_malloc has no other caller, m4ri_mm_calloc zeroes in the non-calloc variants: '
+                   'a fresh matrix is zero whatever the heap or the block cache hands back. C6/C6b: product kernels are called with clear=TRUE '
+                   'on caller-visible destinations in overwriting entry points, clear=FALSE only in the documented accumulate variants or into a '
+                   'matrix created by mzd_init immediately before. C1 over all writers and A2: no store can set a bit past the last column of an '
+                   'owned matrix. C4: raw kernels never see a source or destination with foreign excess bits.'),
+      not_decided='independence from uninitialised ple_table_t scratch arrays and from call history in general (value level)')
+def c10(ctx):
+    from . import masks as M, const_rules as CR, purity as P
+    out = []
+    cfgs = _configs(ctx, extra=[dict(frontend.host_config(), sse2=0), frontend.thread_safe_configs()[0]])
+    for cfg in cfgs:
+        prog = _prog(ctx, cfg)
+        lab = _label(cfg)
+        out.append((lab, P.rule_C5(ctx, prog, lab)))
+        out.append((lab, P.rule_C6(ctx, prog, lab)))
+        out.append((lab, M.rule_C1(ctx, prog, lab)))
+        out.append((lab, M.rule_C4(ctx, prog, lab)))
+        out.append((lab, CR.rule_A2(ctx, prog, lab)))
     return out
